@@ -361,7 +361,7 @@ func (ctx *CheckerContext) safeSizesInfoSizeof(typ types.Type) (size int64, ok b
 	ok = true
 	defer func() {
 		if r := recover(); r != nil {
-			if strings.Contains(r.(string), "assertion failed") {
+			if msg, isString := r.(string); isString && strings.Contains(msg, "assertion failed") {
 				size, ok = 0, false
 			} else {
 				panic(r)
